@@ -62,23 +62,35 @@ def observe(src, timeout=2.0, hide=()):
     buf = io.StringIO()
     old_out = sys.stdout
     ending = 'normal'
+    # CPU-time bound (robust against a loaded machine) plus a generous wall-clock backstop; an expiry anywhere between arming and
+    # disarming is "no observation" (inconclusive), never an error and never a verdict
     old_handler = signal.signal(signal.SIGALRM, _alarm)
-    signal.setitimer(signal.ITIMER_REAL, timeout)
-    saved_modules = set(sys.modules)
+    old_prof = signal.signal(signal.SIGPROF, _alarm)
     try:
-        sys.stdout = buf
         try:
-            code = compile(src, '<case>', 'exec', dont_inherit=True)
-            exec(code, g)
-        except Timeout:
-            return None
-        except SystemExit as e:
-            ending = 'SystemExit(%r)' % (e.code,)
-        except BaseException as e:
-            ending = 'raises ' + builtin_base(e)
+            signal.setitimer(signal.ITIMER_PROF, timeout)
+            signal.setitimer(signal.ITIMER_REAL, timeout * 15)
+            sys.stdout = buf
+            try:
+                code = compile(src, '<case>', 'exec', dont_inherit=True)
+                exec(code, g)
+            except Timeout:
+                return None
+            except SystemExit as e:
+                ending = 'SystemExit(%r)' % (e.code,)
+            except BaseException as e:
+                ending = 'raises ' + builtin_base(e)
+        finally:
+            signal.setitimer(signal.ITIMER_PROF, 0)
+            signal.setitimer(signal.ITIMER_REAL, 0)
+            sys.stdout = old_out
+    except Timeout:
+        return None
     finally:
+        signal.setitimer(signal.ITIMER_PROF, 0)
         signal.setitimer(signal.ITIMER_REAL, 0)
         signal.signal(signal.SIGALRM, old_handler)
+        signal.signal(signal.SIGPROF, old_prof)
         sys.stdout = old_out
     ns = []
     for k, v in g.items():
